@@ -42,6 +42,39 @@ var preludeFns = map[string]preludeFn{
 	"hash_of":      {[]Sort{SInt, SBytes}, SBytes},
 	"hash_size":    {[]Sort{SInt}, SInt},
 	"any_hashable": {[]Sort{SAny}, SBool},
+	// crypto (uninterpreted behaviours of the standard library and of caller-supplied keys)
+	"hash_available":    {[]Sort{SInt}, SBool},
+	"ecdsa_sign_err":    {[]Sort{"ECPriv", SAny, SBytes, SInt}, SAny},
+	"ecdsa_sign_r":      {[]Sort{"ECPriv", SAny, SBytes, SInt}, SInt},
+	"ecdsa_sign_s":      {[]Sort{"ECPriv", SAny, SBytes, SInt}, SInt},
+	"ecdsa_verify":      {[]Sort{"ECPub", SBytes, SInt, SInt}, SBool},
+	"ecdh_err":          {[]Sort{"ECPub"}, SAny},
+	"ed25519_verify":    {[]Sort{SBytes, SBytes, SBytes}, SBool},
+	"rsa_verify_pss":    {[]Sort{"RSAPub", SInt, SBytes, SBytes, SInt}, SAny},
+	"signer_alg":        {[]Sort{SAny}, SInt},
+	"verifier_alg":      {[]Sort{SAny}, SInt},
+	"signer_sign_err":   {[]Sort{SAny, SAny, SBytes, SInt}, SAny},
+	"signer_sign_bytes": {[]Sort{SAny, SAny, SBytes, SInt}, SBytes},
+	"signer_sign_nil":   {[]Sort{SAny, SAny, SBytes, SInt}, SBool},
+	"verifier_verify":   {[]Sort{SAny, SBytes, SBytes}, SAny},
+	"crypto_public":     {[]Sort{SAny}, SAny},
+	"crypto_sign_err":   {[]Sort{SAny, SAny, SBytes, "SignOpts", SInt}, SAny},
+	"crypto_sign_bytes": {[]Sort{SAny, SAny, SBytes, "SignOpts", SInt}, SBytes},
+	"asn1_err":          {[]Sort{SBytes}, SAny},
+	"asn1_r":            {[]Sort{SBytes}, SInt},
+	"asn1_s":            {[]Sort{SBytes}, SInt},
+	"opts_nil":          {nil, "SignOpts"},
+	"opts_hash":         {[]Sort{SInt}, "SignOpts"},
+	"opts_pss":          {[]Sort{SInt, SInt}, "SignOpts"},
+	"curve_p256":        {nil, SAny},
+	"curve_p384":        {nil, SAny},
+	"curve_p521":        {nil, SAny},
+	"ed_pub_of_seed":    {[]Sort{SBytes}, SBytes},
+	"bstr_wf":           {[]Sort{SBytes}, SBool},
+	"head_minimal":      {[]Sort{SBytes}, SBool},
+	"bstr_content":      {[]Sort{SBytes}, SBytes},
+	"item_wf":           {[]Sort{SBytes}, SBool},
+	"abs":               {[]Sort{SInt}, SInt},
 }
 
 func (env *SEnv) call(e *SExpr) *SVal {
@@ -142,6 +175,23 @@ func (env *SEnv) call(e *SExpr) *SVal {
 		x := env.eval(e.Args[0])
 		a := env.coerce(x, SAny)
 		return &SVal{T: u.cvOfAny(env.cur, env.pc, a.T, 3)}
+	case "orderbits":
+		// bit length of the order N of an elliptic.Curve value (as read through Params() in the current state)
+		x := env.coerce(env.eval(e.Args[0]), SAny)
+		p := App(SAddr, "curve_params", x.T)
+		HP, B := u.comp(env.cur, hcomp(SAddr)), u.comp(env.cur, "BIG")
+		return &SVal{T: App(SInt, "bitlen", Select(B, Select(HP, FieldAddrT(p, 1))))}
+	case "ecpub":
+		x := env.eval(e.Args[0])
+		return &SVal{T: u.ecdsaPubAbs(env.cur, x.T)}
+	case "ecpriv":
+		x := env.eval(e.Args[0])
+		return &SVal{T: u.ecdsaPrivAbs(env.cur, x.T)}
+	case "rsapub":
+		x := env.eval(e.Args[0])
+		return &SVal{T: u.rsaPubAbs(env.cur, x.T)}
+	case "epoch":
+		return &SVal{T: u.comp(env.cur, "epoch")}
 	case "typeid":
 		x := env.eval(e.Args[0])
 		return &SVal{T: App(SInt, "any_typeid", x.T)}
